@@ -83,46 +83,45 @@ def check_sheet(text, given, fields, children, acc, case, what):
         V.append(('unequal-line-width', f'line widths {sorted(set(len(ln) for ln in lines))}'))
     else:
         hdr = lines[0]
-        offs = []
+        # column starts = where the header words start (alignment, padding and separators are not part of the property)
+        starts = []
         pos = 0
         ok = True
         for f in fl:
             tok = f.upper()
-            k = hdr.find(' ' + tok, pos)
+            k = hdr.find(tok, pos)
+            while k > 0 and hdr[k - 1] not in ' |':
+                k = hdr.find(tok, k + 1)
             if k < 0:
                 ok = False
                 break
-            offs.append(k)
-            pos = k + 1 + len(tok)
-        if not ok or (offs and offs[0] != 0):
+            starts.append(k)
+            pos = k + len(tok)
+        if not ok:
             V.append(('header', f'header {hdr!r} does not list the fields {fl} in order'))
         else:
-            bounds = offs[1:] + [len(hdr)]
+            bounds = starts[1:] + [len(hdr)]
             for (t, lvl), ln in zip(exp, lines[1:]):
                 for j, f in enumerate(fl):
                     cell = ref_cell(t, f, lvl)
-                    w = bounds[j] - offs[j] - 2
-                    got = ln[offs[j]:bounds[j]]
-                    if w < len(cell):
-                        V.append(('column-narrower-than-cell', f'column {f} width {w} < cell {cell!r} of task {t.id}'))
-                        break
+                    got = ln[starts[j]:bounds[j]]
                     if f == 'name':
-                        # indentation is measured from where the header token starts (alignment-agnostic)
-                        lead = hdr.find('NAME', offs[j]) - offs[j]
-                        ok_cell = got.rstrip() == (' ' * lead + cell).rstrip()
+                        # indentation is measured from where the header word starts
+                        ok_cell = got.rstrip(' |') == cell.rstrip()
+                    elif f in ('predecessors', 'successors', 'parent'):
+                        ok_cell = re.sub(r'\s+', '', got.strip(' |')) == cell.replace(' ', '')
                     else:
-                        ok_cell = got.strip() == cell.strip()
+                        ok_cell = got.strip(' |') == cell.strip()
                     if not ok_cell:
                         kind = 'name-indent' if f == 'name' else 'link-cell' if f in ('predecessors', 'successors', 'parent') else 'cell'
+                        w = bounds[j] - starts[j]
+                        if len(cell.rstrip()) > w:
+                            kind = 'column-narrower-than-cell'
                         V.append((kind, f'task {t.id} column {f}: {got!r}, expected cell {cell!r}'))
                         break
                 else:
                     continue
                 break
-            for j, f in enumerate(fl):
-                w = bounds[j] - offs[j] - 2
-                if w < len(f):
-                    V.append(('column-narrower-than-header', f'column {f} width {w}'))
     for k, m in V[:1]:
         acc.violation(f'C20/{what}/{k}', m, case)
 
